@@ -60,6 +60,18 @@ func (x *Exec) atChan(what string, chv ssa.Value, ch Val, v Val, c *ssa.CallComm
 				match = true
 			}
 		}
+		if !match && ch.T != "" && isPlainIdent(at.Pattern) && !x.hasSourceName(at.Pattern) {
+			// the hook names a variable that no longer exists under that name (a
+			// renamed or rewritten range variable): match by value
+			if pv, ok := x.tryEvalName(at.Pattern); ok && pv.Sort == x.materialize(ch).Sort {
+				match = true
+				if cv := x.materialize(ch); pv.T != cv.T {
+					// must be the same channel: proved, not assumed
+					x.oblige("bind", "at-"+at.Pattern+"-is-this-channel", clauseTags(at), len(clauseTags(at)) == 0,
+						fmt.Sprintf("(= %s %s)", pv.T, cv.T), "the hook's variable "+at.Pattern+" denotes the channel operated on here", at.Where)
+				}
+			}
+		}
 		if !match {
 			continue
 		}
@@ -206,4 +218,56 @@ func (x *Exec) nextInstr(in *ssa.Next) {
 	}
 	x.vals[in] = Val{Tup: []Val{{T: ok, Sort: "Bool", GT: types.Typ[types.Bool]}, {T: k, Sort: ks, GT: mt.Key()}, {T: v, Sort: vs, GT: mt.Elem()}}, Sort: "Tuple", GT: in.Type()}
 	e.assumptionsUsed["range over a map visits each key exactly once in an arbitrary order (ghost visited set)"] = true
+}
+
+func isPlainIdent(s string) bool {
+	if s == "" {
+		return false
+	}
+	for _, r := range s {
+		if !(r == '_' || r >= 'a' && r <= 'z' || r >= 'A' && r <= 'Z' || r >= '0' && r <= '9') {
+			return false
+		}
+	}
+	return true
+}
+
+// tryEvalName evaluates a contract name in the current state; ok is false when
+// it does not bind.
+func (x *Exec) tryEvalName(name string) (v Val, ok bool) {
+	defer func() {
+		if r := recover(); r != nil {
+			if _, isU := r.(unsupported); isU {
+				v, ok = Val{}, false
+				return
+			}
+			panic(r)
+		}
+	}()
+	ex, err := parseSpec(name)
+	if err != nil {
+		return Val{}, false
+	}
+	return x.materialize(x.eval(ex, x.envAt(nil))), true
+}
+
+// hasSourceName: the function being executed (still) has a parameter, result,
+// captured variable or local of that name.
+func (x *Exec) hasSourceName(name string) bool {
+	if x.fn == nil {
+		return false
+	}
+	if x.srcNames == nil {
+		x.srcNames = map[string]bool{}
+		h := hintsOf(x.fn)
+		for _, l := range [][]string{h.Params, h.Results, h.FreeVars} {
+			for _, n := range l {
+				x.srcNames[n] = true
+			}
+		}
+		for _, l := range h.Locals {
+			x.srcNames[l.Name] = true
+		}
+	}
+	return x.srcNames[name]
 }
